@@ -53,8 +53,9 @@ def generate(repo):
                 impl(c, "__str__") == "_StandardCommand.__str__")
 
     def std_rec(c):
-        return "⟨%s, %d, %s, %d, %s⟩" % (lstr(short(c)), c._cmdval if c._cmdval is not None else 999,
-                                        lbool(c._hasparam), c.devicetype, lbool(std_known(c)))
+        cv = reg.code_of(c)
+        return "⟨%s, %d, %s, %d, %s⟩" % (lstr(short(c)), cv if cv is not None else 999,
+                                        lbool(reg.hasparam_of(c)), c.devicetype, lbool(std_known(c)))
 
     from gen import _registry as reg
     std_reg, how_std = reg.std_registry()
@@ -80,7 +81,7 @@ def generate(repo):
         return ".custom"
 
     def special_rec(c):
-        return "⟨%s, %d, %s, %s⟩" % (lstr(short(c)), c._cmdval, lbool(c._hasparam), special_kind(c))
+        return "⟨%s, %d, %s, %s⟩" % (lstr(short(c)), reg.code_of(c), lbool(reg.hasparam_of(c)), special_kind(c))
 
     special_items = ["(%d, %s)" % (op, special_rec(c)) for op, c in special_reg
                      if isinstance(op, int)]
@@ -127,8 +128,9 @@ def generate(repo):
             if c.__name__ == "_StandardInstanceCommand":
                 return ".stdInstance"
         if issubclass(c, dg._SpecialDeviceCommand):
-            a = c._addr if isinstance(c._addr, int) else 999
-            i = c._instance if isinstance(c._instance, int) else 999
+            a, i = reg.special_bytes_of(c)
+            a = a if isinstance(a, int) else 999
+            i = i if isinstance(i, int) else 999
             return ".special ⟨%s, %d, %d, %s⟩" % (lstr(short(c)), a, i, devspecial_kind(c))
         return ".custom " + lstr(short(c))
     dev_entries = [dev_entry(c) for c in reg.device_families()[0]]
@@ -212,21 +214,15 @@ def generate(repo):
     rows = []
     for c in sorted(reg.all_commands()[0], key=short):
         fam = family(c)
-        code = 0
-        for attr in ("_cmdval", "_opcode", "_event_info"):
-            v = getattr(c, attr, None)
-            if isinstance(v, int) and not isinstance(v, bool):
-                code = v
-                break
-        if fam == "event":
-            v = getattr(c, "_event_info", None)
-            code = v if isinstance(v, int) else 0
-        ab = c._addr if fam.startswith("devSpecial") and isinstance(c._addr, int) else 0
-        ib = c._instance if fam.startswith("devSpecial") and isinstance(c._instance, int) else 0
+        code = reg.code_of(c)
+        code = code if isinstance(code, int) else 0
+        sa, si = reg.special_bytes_of(c) if fam.startswith("devSpecial") else (None, None)
+        ab = sa if isinstance(sa, int) else 0
+        ib = si if isinstance(si, int) else 0
         r = c.response
         rows.append("⟨%s, %d, %s, %d, %d, %d, %s, %d, %s, %s, %s, %s, %s, %s, %s, %s⟩" % (
-            lstr(short(c)), c._framesize, lstr(fam), code, ab, ib,
-            lbool(bool(getattr(c, "_hasparam", False))), c.devicetype if isinstance(c.devicetype, int) else 999,
+            lstr(short(c)), reg.framesize_of(c), lstr(fam), code, ab, ib,
+            lbool(bool(reg.hasparam_of(c))), c.devicetype if isinstance(c.devicetype, int) else 999,
             lbool(bool(c.sendtwice)), lstr(r.__name__ if r else ""), lstr(resp_kind(r)),
             lbool(bool(c.uses_dtr0)), lbool(bool(c.uses_dtr1)), lbool(bool(c.uses_dtr2)),
             lbool(bool(c.appctrl)), lbool(bool(c.inputdev))))
